@@ -462,7 +462,7 @@ func (c *clientV2) FinishedMessage() {
 }
 
 func (c *clientV2) Empty() {
-	atomic.StoreInt64(&c.InFlightCount, 0)
+	// the channel has already adjusted InFlightCount for every message it discarded
 	verif.Ev("KEmpty", "k", c.ID)
 	c.tryUpdateReadyState()
 }
